@@ -1,7 +1,8 @@
-import OntVerif.Model.KV
+import OntVerif.Model.KVLive
 /-! Line driver for C08: `E op;op;…` on a `StateDB` over a fresh CacheDB/OverlayDB/store.
 Ops: `ss:a:slot:val` `sn:a:n` `sc:a:code:keccak` `ab:a:n` `sb:a:n` `su:a` `al:data` `ar:n` `sr:n` `snap` `rev:i` `dis:i`
-`cc` (CacheDB.Commit) `bc` (overlay commit to the store, fresh overlay) `o` (print all getters). `a` and `slot` index fixed tables. -/
+`cc` (CacheDB.Commit) `bc` (overlay commit to the store, fresh overlay) `cm` (StateDB.Commit) `ct` (StateDB.CommitToCacheDB)
+`o` (print all getters). `a` and `slot` index fixed tables. -/
 namespace OntVerif.Driver.C08
 open OntVerif.Util OntVerif.Model.KV
 
@@ -48,6 +49,8 @@ def stepOp (s : StateDB) (op : String) : Option (StateDB × Option String) :=
   | ["rev", i] => do some (okW (s.revert (← parseInt i)) s "rev")
   | ["dis", i] => do some (okW (s.discard (← parseInt i)) s "dis")
   | ["cc"] => some ({ s with cache := s.cache.commit }, none)
+  | ["cm"] => some (OntVerif.Model.KVLive.commit s, none)
+  | ["ct"] => some (OntVerif.Model.KVLive.commitToCacheDB s, none)
   | ["bc"] => some ({ s with cache := s.cache.step (.bcommit false) }, none)
   | ["o"] => some (s, some (observe s))
   | _ => none
